@@ -305,7 +305,7 @@ pub fn run(ctx: &mut Ctx) {
         probe_send_sync(&mut tmp);
         ctx.replay_verdict = Some(if tmp.violations.is_empty() { Verdict::Pass } else { Verdict::Fail(tmp.violations[0].message.clone()) });
     }
-    let n = ctx.q(30, 1000);
+    let n = ctx.q(150, 3000);
     ctx.max_shrink_iters = 300;
     ctx.explore::<Case>(
         "interleavings",
@@ -329,7 +329,7 @@ pub fn run(ctx: &mut Ctx) {
         },
     );
     ctx.extra.insert("interleavings_executed".into(), serde_json::json!(INTERLEAVINGS.load(std::sync::atomic::Ordering::Relaxed)));
-    let nt = ctx.q(200, 5000);
+    let nt = ctx.q(600, 10000);
     let saved = ctx.threads;
     ctx.threads = 2; // the cases spawn their own threads
     ctx.explore::<TCase>(
